@@ -190,6 +190,36 @@ def run(ck, replay=None):
         ok = same(img.img, ref)
         events.append({"tid": f"construct:{rep}", "op": "apply", "corr": "construction-order", "kind": "optical", "subkind": "optical", "overwrite": 1, "neutral": 0, "raised": 0,
                        "same_object": 1, "input_unchanged": 1, "class_same": 1, "result_is_F": int(ok), "meta_ok": 1, "pixels_unchanged": 0})
+    # ---- growth beyond the listed properties: the un-keyed grid cache of CurvatureCorrection (spec/CorrectionCache.tla).
+    # TLC enumerates every history of up to three image shapes and what the as-built rule returns for it; the real class is
+    # driven along each history and has to behave as that rule (a conformance clause of the specification, reported as a
+    # note, never as a violation of C10); the desirable property is model-checked under both rules.
+    ck.sany("CorrectionCache")
+    rk = ck.model_check("CorrectionCache", "CorrectionCache_keyed.cfg", workers=1)
+    ru = ck.tlc("CorrectionCache", "CorrectionCache_unkeyed_prop.cfg", workers=1, expect_ok=False, label="asbuilt-property")
+    rh = ck.model_check("CorrectionCache", "CorrectionCache_unkeyed.cfg", workers=1)
+    hists = {(tuple(map(tuple, p[1])), tuple(map(tuple, p[2]))) for p in rh.printed("HISTSHAPES")}
+    agree, total = 0, 0
+    for hist, outs in sorted(hists):
+        with warnings.catch_warnings(), contextlib.redirect_stdout(io.StringIO()):
+            warnings.simplefilter("ignore")
+            cc = darsia.CurvatureCorrection(config={"bulge": {"horizontal_bulge": 1e-3, "horizontal_center_offset": 0, "vertical_bulge": 0.0, "vertical_center_offset": 0}})
+            got = []
+            try:
+                for shp in hist:
+                    got.append(tuple(cc.correct_array(np.random.RandomState(0).rand(*shp, 3)).shape[:2]))
+            except Exception:  # noqa
+                got.append(("raised",))
+        total += 1
+        agree += int(tuple(got) == outs)
+    ck.cov["correction_cache"] = {"histories": total, "implementation_follows_unkeyed_rule": agree,
+                                  "property_under_unkeyed_rule": "violated" if "ResultHasShapeOfItsInput" in ru.violated else "holds"}
+    if total and agree == total and "ResultHasShapeOfItsInput" in ru.violated:
+        print("OBSERVATION (not a listed property): CurvatureCorrection keeps the sampling grid of the first image it corrected (cache without a key): "
+              f"on all {total} histories of up to three image shapes it returns what the un-keyed cache model returns - an image of another shape comes back "
+              "with the first image's shape; the keyed rule satisfies ResultHasShapeOfItsInput (CorrectionCache.tla)")
+    elif total:
+        ck.note(f"CorrectionCache: the implementation follows the un-keyed rule on {agree} of {total} histories (the as-built model needs updating)")
     bad = ck.validate("Trace_Corrections", "Trace.cfg", events)
     for b in bad:
         e = b["event"]
